@@ -493,6 +493,92 @@ def random_datetime_cases(rng, n):
     return out
 
 
+def python_formatted_values(rng, tier):
+    """What a careless application produces by str()-ing / formatting a Python value: fixed points of
+    Python's own formatting (repr(float), str(int), str(Decimal), %g, %e, float.hex(), isoformat(), str(bool) …)
+    over a spread of magnitudes and signs.  Returns [(formatter name, string)], no special-casing of any form."""
+    import datetime as dtm
+    from decimal import Decimal
+    from fractions import Fraction
+
+    out = []
+
+    def emit(name, fn, x):
+        try:
+            r = fn(x)
+        except Exception:
+            return
+        if isinstance(r, str) and r != "":
+            out.append((name, r))
+
+    thorough = tier == "thorough"
+    exps = list(range(-12, 25)) + [-324, -308, -100, -30, -20, 30, 100, 300, 308]
+    if not thorough:
+        exps = [-324, -308, -100, -20, -7, -5, -4, -3, -1, 0, 1, 5, 15, 16, 17, 22, 100, 308]
+    mants = [1.0, 1.5, 2.5, 3.0, 9.999, 1.2345678901234567, 0.1, 7.25] if thorough else [1.0, 2.5, 1.2345678901234567]
+    floats = [0.0, -0.0, float("inf"), float("-inf"), float("nan"), 0.1 + 0.2, 1 / 3, 2**53 + 0.0, 1e22, 1e23, 5e-324]
+    for e in exps:
+        for m in mants:
+            for sg in (1, -1):
+                try:
+                    floats.append(sg * float("%re%d" % (m, e)))
+                except (ValueError, OverflowError):
+                    pass
+    for _ in range(400 if thorough else 30):
+        floats.append(rng.uniform(-10, 10) * 10 ** rng.randint(-25, 25))
+    ints = [0, 1, -1, 7, -7, 31, 32, 255, 2**31, 2**63, -(2**63), 10**16, 10**22, 123456789012345678901234567890]
+    ints += [10**k for k in range(0, 26, 1 if thorough else 4)] + [-(10**k) for k in range(1, 26, 5)]
+    ints += [rng.randint(-10**9, 10**9) for _ in range(100 if thorough else 20)]
+    num_fmt = [
+        ("str", str), ("repr", repr), ("%g", lambda x: "%g" % x), ("%e", lambda x: "%e" % x), ("%E", lambda x: "%E" % x),
+        ("%f", lambda x: "%f" % x), ("%.2f", lambda x: "%.2f" % x), ("%.10g", lambda x: "%.10g" % x), ("%.17g", lambda x: "%.17g" % x),
+        ("%d", lambda x: "%d" % x), ("%05d", lambda x: "%05d" % x), ("%5d", lambda x: "%5d" % x), ("%x", lambda x: "%x" % x),
+        ("%+d", lambda x: "%+d" % x), ("format ,", lambda x: format(x, ",")), ("format _", lambda x: format(x, "_")),
+        ("format +", lambda x: format(x, "+")), ("format .3e", lambda x: format(x, ".3e")), ("format %", lambda x: format(x, "%")),
+        ("format n", lambda x: format(x, "n")), ("format g", lambda x: format(x, "g")), ("format .0f", lambda x: format(x, ".0f")),
+        ("float.hex", lambda x: float(x).hex()), ("str(Decimal(x))", lambda x: str(Decimal(x))),
+        ("str(Decimal(repr))", lambda x: str(Decimal(repr(x)))), ("Decimal.normalize", lambda x: str(Decimal(repr(x)).normalize())),
+        ("Decimal %E", lambda x: format(Decimal(repr(x)), "E")), ("str(Fraction)", lambda x: str(Fraction(x))),
+        ("str(complex)", lambda x: str(complex(x))), ("str(float(int))", lambda x: str(float(x))), ("hex", lambda x: hex(x)),
+        ("oct", lambda x: oct(x)), ("bin", lambda x: bin(x)), ("repr(str)", lambda x: repr(str(x))), ("bytes", lambda x: str(str(x).encode())),
+        ("str([x])", lambda x: str([x])),
+    ]
+    for x in floats + ints:
+        kind = "float" if isinstance(x, float) else "int"
+        for name, fn in num_fmt:
+            emit(f"{kind}:{name}", fn, x)
+    for d in ("1E+16", "1E-7", "0.00001", "1.50", "-0", "0E-10", "123.4500", "1E+2", "NaN", "Infinity", "-Infinity", "0.1", "1e-05"):
+        for name, fn in (("str", str), ("repr", repr), ("normalize", lambda v: str(v.normalize())), ("format f", lambda v: format(v, "f")),
+                         ("to_eng_string", lambda v: v.to_eng_string()), ("quantize", lambda v: str(v.quantize(Decimal("0.01"))))):
+            emit(f"Decimal:{name}", fn, Decimal(d))
+    for b in (True, False, None):
+        for name, fn in (("str", str), ("repr", repr), ("int", lambda v: str(int(v))), ("lower", lambda v: str(v).lower()), ("YN", lambda v: "YN"[not v]), ("[0]", lambda v: str(v)[0])):
+            emit(f"bool:{name}", fn, b)
+    moments = [dtm.datetime(2023, 9, 21, 14, 0, 0), dtm.datetime(2024, 2, 29, 23, 59, 59, 123000), dtm.datetime(2023, 1, 5, 1, 2, 3, 123456),
+               dtm.datetime(1, 1, 1), dtm.datetime(9999, 12, 31, 23, 59, 59, 999999), dtm.datetime(1999, 12, 31, 9, 5, 7, 7)]
+    if thorough:
+        for _ in range(40):
+            moments.append(dtm.datetime(rng.randint(1, 9999), rng.randint(1, 12), rng.randint(1, 28), rng.randint(0, 23), rng.randint(0, 59),
+                                        rng.randint(0, 59), rng.choice([0, 0, rng.randint(0, 999) * 1000, rng.randint(0, 999999)])))
+    dt_fmt = [
+        ("str", str), ("repr", repr), ("isoformat", lambda t: t.isoformat()), ("isoformat ms", lambda t: t.isoformat(timespec="milliseconds")),
+        ("isoformat basic", lambda t: t.isoformat().replace("-", "").replace("T", "-")), ("ctime", lambda t: t.ctime()),
+        ("timestamp", lambda t: repr(t.replace(tzinfo=dtm.timezone.utc).timestamp())), ("date", lambda t: str(t.date())), ("time", lambda t: str(t.time())),
+        ("date.isoformat basic", lambda t: t.date().isoformat().replace("-", "")), ("time.isoformat ms", lambda t: t.time().isoformat(timespec="milliseconds")),
+        ("toordinal", lambda t: str(t.toordinal())), ("isocalendar", lambda t: "%04dw%d" % (t.year, t.isocalendar()[1])),
+        ("%Y%m%d-%H:%M:%S", lambda t: t.strftime("%Y%m%d-%H:%M:%S")), ("%Y%m%d-%H:%M:%S.%f", lambda t: t.strftime("%Y%m%d-%H:%M:%S.%f")),
+        ("%Y%m%d-%H:%M:%S.ms", lambda t: t.strftime("%Y%m%d-%H:%M:%S.") + "%03d" % (t.microsecond // 1000)), ("%Y%m%d", lambda t: t.strftime("%Y%m%d")),
+        ("%H:%M:%S", lambda t: t.strftime("%H:%M:%S")), ("%H:%M:%S.%f", lambda t: t.strftime("%H:%M:%S.%f")), ("%Y%m", lambda t: t.strftime("%Y%m")),
+        ("%y%m%d", lambda t: t.strftime("%y%m%d")), ("%Y-%m-%d", lambda t: t.strftime("%Y-%m-%d")), ("%c", lambda t: t.strftime("%c")),
+        ("unpadded", lambda t: "%d%d%d-%d:%d:%d" % (t.year, t.month, t.day, t.hour, t.minute, t.second)),
+        ("tz isoformat", lambda t: t.replace(tzinfo=dtm.timezone.utc).isoformat()), ("timedelta", lambda t: str(t - dtm.datetime(2023, 1, 1))),
+    ]
+    for t in moments:
+        for name, fn in dt_fmt:
+            emit(f"datetime:{name}", fn, t)
+    return out
+
+
 def dictionary_types(dicts):
     types = []
     for name, fields in dicts.items():
@@ -550,6 +636,26 @@ def typed_cases(ctx, types, maxdigits):
         if kinds[k] in upper_seen:
             cases.append((kinds[k], "1", (), v))
     stats["random:members+near-misses"] = len(cases) - n0
+    # fixed points of Python's own formatting, for EVERY datatype
+    n0 = len(cases)
+    pf = python_formatted_values(ctx.rng, ctx.tier)
+    by_fmt, seen_str = {}, {}
+    for name, v in pf:
+        by_fmt[name.split(":")[0]] = by_fmt.get(name.split(":")[0], 0) + 1
+        seen_str.setdefault(v, name)
+    for v in sorted(seen_str):
+        for t in sorted(upper_seen):
+            cases.append((t, "1", (), v))
+    stats["python-formatted:cases"] = len(cases) - n0
+    stats["python-formatted:distinct strings"] = len(seen_str)
+    stats["python-formatted:produced by value kind"] = by_fmt
+    stats["python-formatted:formatters"] = len({n for n, _ in pf})
+    stats["python-formatted:length histogram"] = {
+        k: sum(1 for v in seen_str if lo <= len(v) <= hi) for k, (lo, hi) in
+        {"1-4": (1, 4), "5-8": (5, 8), "9-16": (9, 16), "17-32": (17, 32), ">32": (33, 10**9)}.items()
+    }
+    stats["python-formatted:with exponent marker"] = sum(1 for v in seen_str if re.fullmatch(r"-?[0-9.]+[eE][+-]?[0-9]+", v))
+    ctx.c19_pf = set(seen_str)
     # tag 16, case variants of type names, unknown type, non-str / empty
     n0 = len(cases)
     for t in sorted(upper_seen):
@@ -831,7 +937,9 @@ def oracle(ctx, disagreements, broken):
             pool = list(zip(cases, impl_results))
         else:
             # modest sample: everything of length <= 2, every 7th longer case, all enumerated-field probes
-            pool = [(c, r) for k, (c, r) in enumerate(zip(cases, impl_results)) if c[2] or not isinstance(c[3], str) or len(c[3]) <= 2 or k % 7 == 0]
+            pf = getattr(ctx, "c19_pf", set())
+            pool = [(c, r) for k, (c, r) in enumerate(zip(cases, impl_results))
+                    if c[2] or not isinstance(c[3], str) or len(c[3]) <= 2 or k % 7 == 0 or c[3] in pf]
         for c, r in pool:
             results[c] = r
     else:
